@@ -46,12 +46,14 @@ const (
 	QTrailerNoStatus
 	QUnaryReset       // reset (what goat's client sends to cancel a stream) naming a unary method
 	QUnaryTrailerOnly // status + trailer, no body, naming a unary method
+	QUnaryNoDest      // a well-formed unary request whose destination is empty
+	QOpenNoDest       // a stream open whose destination is empty
 	numQShapes
 )
 
 var qShapeNames = []string{"no-header", "empty-method", "no-slash", "unknown-service", "unknown-method", "wrong-destination", "unary",
 	"unary-bad-md", "unary-nil-body", "open", "open-bad-md", "open-with-body", "body", "trailer-ok", "trailer-err", "reset", "reset-other",
-	"body+trailer", "status-only", "unary+trailer", "empty", "open-sstream", "open-cstream", "huge-id", "unary-bad-timeout", "trailer-no-status", "unary-reset", "unary-trailer-only"}
+	"body+trailer", "status-only", "unary+trailer", "empty", "open-sstream", "open-cstream", "huge-id", "unary-bad-timeout", "trailer-no-status", "unary-reset", "unary-trailer-only", "unary-no-destination", "open-no-destination"}
 
 type RawReq struct {
 	Shape int `json:"shape"`
@@ -133,6 +135,12 @@ func buildReq(q RawReq, n int) *Rpc {
 	case QHugeID:
 		r.Id = ^uint64(0) - uint64(q.ID)
 		r.Header, r.Body = hdr(methodNames[KUnary]), bytesBody(payload)
+	case QUnaryNoDest:
+		r.Header, r.Body = hdr(methodNames[KUnary]), bytesBody(payload)
+		r.Header.Destination = ""
+	case QOpenNoDest:
+		r.Header = hdr(methodNames[KBidi])
+		r.Header.Destination = ""
 	case QUnaryReset:
 		r.Header, r.Reset_, r.Trailer = hdr(methodNames[KUnary]), &goatorepo.Reset{Type: "RST_STREAM"}, &goatorepo.Trailer{}
 	case QUnaryTrailerOnly:
